@@ -17,6 +17,7 @@ import paramgen as pg
 
 HERE = os.path.dirname(os.path.abspath(__file__))
 KNOWN_F07 = 'dict_param_spells_serialised_task_or_enum'
+KNOWN_F07C = 'surrogate_pair_spells_astral_char'
 
 
 def quiet():
